@@ -225,7 +225,7 @@ def run(ctx):
                         if surface != "bytes" and (1 << 60) <= mv < (1 << 60) + 100000000:
                             # the model expects the placeholder of a stored heap string, the implementation hands back something else
                             sig = f"mheap-tie:{surface}:stored-heap-object-lost"
-                        elif surface == "bytes" and re.search(r"(fsys|netw)\.close\(", upto):
+                        elif surface == "bytes" and re.search(r"(fsys|netw)\.close\(-?\d", upto):
                             sig = "mheap-tie:bytes:diverges-after-foreign-close"
                         known = any(k.get("status") == "open" and re.search(k["match"], sig) for k in ctx.known)
                         if not known:
